@@ -230,3 +230,119 @@ PROPS["C02"] = {
     "assumptions": ["the checks run as root (no permission enforcement on the real filesystem, as in the brief's sandbox)", "owner queries and chown are not compared (Memfs starts every entry at uid/gid 1000)",
                     "error kinds are not compared (the property speaks of success or failure)"],
 }
+
+
+# ---------------------------------------------------------------------------------------------
+# C04: Memfs operations are atomic and deadlock-free under concurrent use
+def conc_line(setup, progs, iters, yield_n):
+    return "\t".join(["conc", envspec(MEM_ENV), str(iters), str(yield_n), ";".join(setup)] + [";".join(p) for p in progs])
+
+
+def conc_post(line, out):
+    f = line.split("\t")
+    return "\t".join(["lin", f[1], f[4], out] + f[5:])
+
+
+def c04_programs(tier, rng):
+    """thread programs over a shared small namespace: every single-step operation of the statement races with
+    operations on the same and on related paths"""
+    A = op("append_all", "/f", b"a")
+    B = op("append_all", "/f", b"b")
+    C = op("append_all", "/f", b"c")
+    fixed = [
+        ([], [[A, A], [B, B], [C, C]]),
+        ([], [[A, B], [op("read_all", "/f"), op("exists", "/f"), op("read_all", "/f")], [C]]),
+        ([], [[op("write_all", "/f", b"xx"), op("write_all", "/f", b"y")], [op("read_all", "/f"), op("read_all", "/f")], [op("append_all", "/f", b"z")]]),
+        ([op("mkdir_p", "/d")], [[op("mkfile", "/d/a"), op("mkfile", "/d/b")], [op("paths", "/d"), op("all_files", "/d"), op("files", "/d")], [op("remove_all", "/d"), op("mkfile", "/d")]]),
+        ([op("mkdir_p", "/d/e"), op("mkfile", "/d/e/f")], [[op("move_p", "/d", "/g")], [op("all_paths", "/d"), op("all_paths", "/g"), op("is_dir", "/d")], [op("copy", "/d", "/h"), op("all_paths", "/h")]]),
+        ([op("mkfile", "/t")], [[op("symlink", "/l", "/t"), op("readlink", "/l")], [op("remove", "/t"), op("mkdir_p", "/t")], [op("is_symlink_file", "/l"), op("is_symlink_dir", "/l"), op("exists", "/l")]]),
+        ([op("mkdir_p", "/a/b")], [[op("set_cwd", "/a/b"), op("mkfile", "x"), op("cwd")], [op("remove_all", "/a"), op("exists", "/a/b/x")], [op("abs", "y"), op("mkdir_p", "y")]]),
+        ([], [[op("mkdir_m", "/m", 0o700), op("mode", "/m")], [op("mkdir_p", "/m"), op("mode", "/m")], [op("remove", "/m"), op("is_dir", "/m")]]),
+        ([], [[op("write_lines", "/f", ["a", "b"]), op("read_lines", "/f")], [op("append_line", "/f", "c"), op("read_lines", "/f")], [op("append_lines", "/f", ["d", "e"])]]),
+        ([op("mkdir_p", "/d")], [[op("mkfile", "/d/x"), op("dirs", "/")], [op("move_p", "/d", "/e"), op("files", "/e")], [op("remove", "/e/x"), op("remove", "/e"), op("remove", "/d")]]),
+    ]
+    # random programs
+    paths = ["/f", "/d", "/d/f", "/d/e", "/g"]
+
+    def rop():
+        k = rng.random()
+        p = rng.choice(paths)
+        if k < 0.12:
+            return op("mkdir_p", p)
+        if k < 0.22:
+            return op("mkfile", p)
+        if k < 0.32:
+            return op("append_all", p, rng.choice([b"a", b"b", b"c"]))
+        if k < 0.40:
+            return op("write_all", p, rng.choice([b"x", b"yy"]))
+        if k < 0.48:
+            return op("remove", p)
+        if k < 0.54:
+            return op("remove_all", p)
+        if k < 0.62:
+            return op("move_p", p, rng.choice(paths))
+        if k < 0.68:
+            return op("copy", p, rng.choice(paths))
+        if k < 0.73:
+            return op("symlink", p, rng.choice(paths))
+        if k < 0.77:
+            return op("set_cwd", p)
+        if k < 0.84:
+            return op(rng.choice(["paths", "dirs", "files", "all_paths", "all_dirs", "all_files"]), rng.choice(["/", "/d"]))
+        if k < 0.92:
+            return op(rng.choice(["read_all", "read_lines", "exists", "is_dir", "is_file", "is_symlink", "mode", "readlink"]), p)
+        # (mkfile_m, chmod and chown are create-then-traverse compositions and not among the statement's single-step operations)
+        return op("mkdir_m", p, rng.choice([0o700, 0o644]))
+    rnd = []
+    for _ in range(60 if tier == "quick" else 600):
+        nt = rng.choice([2, 3, 3, 4])
+        setup = [rop() for _ in range(rng.randint(0, 3))]
+        rnd.append((setup, [[rop() for _ in range(rng.randint(1, 3))] for _ in range(nt)]))
+    return fixed, rnd
+
+
+def c04_streams(tier, rng, ctx):
+    fixed, rnd = c04_programs(tier, rng)
+    it_fixed = 400 if tier == "quick" else 4000
+    it_rnd = 120 if tier == "quick" else 600
+    lines = [conc_line(s, p, it_fixed, y) for s, p in fixed for y in (0, 3, 12)]
+    lines += [conc_line(s, p, it_rnd, y) for s, p in rnd for y in (2, 8)]
+    env = dict(MEM_ENV)
+
+    def appends_once(line, out):
+        # every concurrent append to one file is present exactly once in the final content
+        f = line.split("\t")
+        progs = [x.split(";") for x in f[5:]]
+        allops = [o for p in progs for o in p if o] + [o for o in f[4].split(";") if o]
+        if not allops or any(not o.startswith("append_all:%s:" % hx("/f")) for o in allops):
+            return True
+        want = sorted(bytes.fromhex(o.split(":")[2]) for o in allops)
+        for outcome in out.split("@@"):
+            if "#" not in outcome:
+                return False
+            snap = outcome.split("#", 1)[1]
+            d = [it for it in snap.split("D{", 1)[1].split("}", 1)[0].split(";") if it.startswith(hx("/f") + ":")]
+            data = bytes.fromhex(d[0].split(":")[1]) if d else b""
+            if sorted(bytes([c]) for c in data) != want:
+                return False
+        return True
+    return [
+        Stream("linearizable", "check", lines, impl_env=env, post=conc_post,
+               nontrivial=lambda l, o: "@@" in o,
+               rule="thread programs (10 hand-written races over every single-step operation of the statement + random 2-4 thread programs) run %d / %d times each on one shared Memfs with "
+                    "yield points before every lock acquisition (cfg(rivia_verif) hook; yield ranges 0, 2..12); every distinct outcome (per-call results, invocation / response order, final state "
+                    "snapshot) is checked by the extracted model's linearizability search (program order + real-time precedence); DEADLOCK = an iteration not finishing in 20 s; non-trivial = more "
+                    "than one distinct outcome observed" % (it_fixed, it_rnd)),
+        Stream("appends-once", "pycheck", [l for l in lines[:3]], impl_env=env, pycheck=appends_once,
+               rule="three threads x two append_all on one file: the final content holds every appended byte exactly once in every observed outcome"),
+    ]
+
+
+PROPS["C04"] = {
+    "streams": c04_streams,
+    "rule": "observed concurrent histories of real threads on one shared Memfs, each checked for linearizability against the extracted sequential model; distinct = distinct thread programs x yield settings",
+    "trusted": ["hook sys::verif::guard_point (a yield before the lock is requested; add-only)", "harness/src/conc.rs: one SeqCst counter stamps invocation and response of every call",
+                "ocaml/lin.ml: Wing-Gong search over the extracted step function"],
+    "assumptions": ["std::sync::RwLock provides mutual exclusion between a writer and everybody else, and a blocked acquisition eventually succeeds once the lock is free (fairness of the OS scheduler)",
+                    "thread interleavings are sampled by the stress runs; the theorem Conc/Lin.v covers every schedule given the one-critical-section discipline that Gen/Locks.v is regenerated to witness"],
+}
